@@ -240,7 +240,12 @@ where
                     // @TODO: we need to combine access levels here, which requires adding a
                     // trait bound to conditions which allows combining them as well. Or we
                     // return an array of access levels for each peer.
-                    if *current_access < next_access {
+                    //
+                    // The comparison must not depend on the order in which the paths to a member
+                    // are visited (map iteration order differs between replicas), so the total
+                    // tie-break order of the state merge is used here instead of the `PartialOrd`
+                    // of `Access`, which is not antisymmetric once conditions are involved.
+                    if state::is_lower_access(current_access, &next_access) {
                         *current_access = next_access.clone();
                     }
                 })
